@@ -490,6 +490,21 @@ theorem own_attrs_last_write_wins (kvs : KVs) (k : Bytes) :
     Map.lookup k (Map.ofIterable kvs) = (lastWrite k kvs).map convert ∧ (Map.ofIterable kvs).keys.Nodup :=
   ⟨Map.lookup_ofIterable k kvs, Map.nodup_ofIterable kvs⟩
 
+/-- **scope attributes** (ABI v2 `GetTracer(name, version, schema_url, attributes)`): when the tracer was requested with the
+    attribute iterable `kvs`, the exported span's instrumentation scope carries, per key, the last pair of `kvs` (as an owned
+    value), whatever the span program does. -/
+theorem scope_attrs_last_write_wins (c : Cfg) (ops : List Op) (kvs : KVs) (k : Bytes)
+    (h : c.scope.attrs = some (Map.ofIterable kvs)) :
+    ∃ sc, (exported c ops).scope = some sc ∧ ∃ m, sc.attrs = some m ∧
+      Map.lookup k m = (lastWrite k kvs).map convert ∧ m.keys.Nodup :=
+  ⟨c.scope, (kind_start_resource_scope c ops).2.2.2, Map.ofIterable kvs, h,
+    Map.lookup_ofIterable k kvs, Map.nodup_ofIterable kvs⟩
+
+/-- the hypothesis of `scope_attrs_last_write_wins` is satisfiable -/
+example : ∃ c : Cfg, c.scope.attrs = some (Map.ofIterable [([107], Value.i32 1), ([107], Value.i32 2)]) :=
+  ⟨{ procs := [.simple], resource := [], scope := ⟨[], [], [], some (Map.ofIterable [([107], Value.i32 1), ([107], Value.i32 2)])⟩,
+     name := [], kind := 0, startSys := 0, startSteady := 0, attrs := [], links := [] }, rfl⟩
+
 /-! ## Exactly once, identical copies, End takes effect once -/
 
 /-- **fanout_identical.**  Every configured processor's exporter received the same record, as one `Export` call with
@@ -612,7 +627,7 @@ theorem spanKind_statusCode_counts : Gen.spanKindNames.length = 5 ∧ Gen.status
 /-! ## Non-vacuity: concrete programs satisfying the hypotheses, with the conclusions visible -/
 
 def exCfg : Cfg :=
-  { procs := [.simple, .batch, .simple], resource := [1], scope := ⟨[2], [], []⟩, name := [110], kind := 2,
+  { procs := [.simple, .batch, .simple], resource := [1], scope := ⟨[2], [], [], none⟩, name := [110], kind := 2,
     startSys := 1000, startSteady := 5000, attrs := [([97], .i32 5), ([98], .str [0, 1]), ([97], .cstr [65, 0, 66])],
     links := [([1], [2], 1, [([107], .bools [true])])] }
 
